@@ -124,6 +124,7 @@ theorem C20_stream_timed_out_request_keeps_its_place :
     (wrun false [.sendTimeout 1, .send 2, .resp, .resp]).got = [(1, .timeout), (2, .resp 1)] ∧
     (wrun true [.sendTimeout 1, .send 2, .resp, .resp]).got = [(1, .timeout), (2, .resp 2)] := by decide
 
-theorem C20_stream_on_tree : Facts.writeStreamKeepsTimedOutRequests = true := by decide
+theorem C20_stream_on_tree : Facts.writeStreamKeepsTimedOutRequests = true ∧
+    Facts.rangeScanClosesChannelOnAllPaths = true := by decide
 
 end Oxia.C20
